@@ -41,7 +41,7 @@ static void chk_count (SNDFILE *s, const char *what, sf_count_t r, sf_count_t re
 static long run_workload (int format, int ch, int wl, int t, const MEMF *base, long fault_at, int kind, int persist)
 {	SF_INFO si ; SNDFILE *s ; size_t h0 ; int f0 ; SF_VERIF_STATE st ; long calls ; int ts = vh_tsize [t], i ; static double buf [4096] ; sf_count_t r ;
 	memset (&si, 0, sizeof (si)) ;
-	store.pos = 0 ; store.ncalls = 0 ; store.fired = 0 ; store.fault_at = fault_at ; store.fault_kind = kind ; store.fault_persist = persist ; store.budget = 64 * (300000 + 70000) ;
+	store.pos = 0 ; store.ncalls = 0 ; store.fired = 0 ; store.fault_at = fault_at ; store.fault_kind = kind ; store.fault_persist = persist ; store.budget = 300000 ;	/* the fault-free workloads need a few hundred callbacks */
 	if (wl == WL_WRITE) { store.len = 0 ; si.format = format ; si.channels = ch ; si.samplerate = 8000 ; }
 	else { store.len = base->len ; memcpy (store.d, base->d, base->len) ; if ((format & SF_FORMAT_TYPEMASK) == SF_FORMAT_RAW) { si.format = format ; si.channels = ch ; si.samplerate = 8000 ; } }
 	for (i = 0 ; i < 4096 ; i++) switch (t) { case T_SHORT : ((short *) buf) [i] = (short) (i * 13) ; break ; case T_INT : ((int *) buf) [i] = i * 500000 ; break ; case T_FLOAT : ((float *) buf) [i] = 0.001f * (i % 900) ; break ; default : buf [i] = 0.001 * (i % 900) ; }
